@@ -615,6 +615,36 @@ end
 section
 variable {K : Type} [Field K] [LinearOrder K] [IsStrictOrderedRing K] [RealFns K]
 
+/-- `reb_rotation_init_from_to` with fixes/C20-from-to-nearly-antiparallel.diff (antiparallel branch also when
+    `|from × to|² < tau`, the sine of the angle below rounding level): always a unit quaternion; it maps the
+    direction of `from` onto that of `to` exactly outside the band and to within `|error|² < 2 tau` inside it
+    (with `tau = 1e-30`: 1.4e-15, the rounding error of the inputs).  As found (`tau = 0`, i.e. only an exactly
+    vanishing half vector) the exact-arithmetic statement `c20_from_to_repaired_full` holds but the floating-point
+    code returns the identity or NaN when the rounding residue is collinear with the vectors (known finding
+    C20:from_to-antiparallel-collinear-residue, e.g. (1,1,1) → (−3,−3,−3)). -/
+theorem c20_from_to_rounding_band (hs : SqrtSpec K) (tau : K) (htau : 0 < tau) (frm tov : V3 K)
+    (h1 : len2 frm ≠ 0) (h2 : len2 tov ≠ 0) :
+    qlen2 (fromToFixedTau tau frm tov) = 1 ∧
+    len2 (V3.sub (rotate (normalize frm) (fromToFixedTau tau frm tov)) (normalize tov)) < 2 * tau ∧
+    ((¬ (len2 (cross (normalize frm) (normalize tov)) < tau) ∨ 0 ≤ dot (normalize frm) (normalize tov)) →
+      rotate (normalize frm) (fromToFixedTau tau frm tov) = normalize tov) := by
+  have hf := normalize_unit hs frm h1
+  have ht := normalize_unit hs tov h2
+  have zero_lt : ∀ v : V3 K, len2 (V3.sub v v) < 2 * tau := by
+    intro v
+    have : len2 (V3.sub v v) = 0 := by simp [len2, dot, V3.sub]
+    rw [this]; linarith
+  by_cases hb : ¬ (len2 (cross (normalize frm) (normalize tov)) < tau) ∨ 0 ≤ dot (normalize frm) (normalize tov)
+  · have e := fromToUnitTau_eq tau antiparallelFixed _ _ hb
+    obtain ⟨u, m⟩ := fromToUnit_fixed_spec hs _ _ hf ht
+    unfold fromToFixedTau
+    rw [e]
+    exact ⟨u, by rw [m]; exact zero_lt _, fun _ => m⟩
+  · push Not at hb
+    obtain ⟨u, _, b⟩ := fromToUnitTau_band hs tau _ _ hf ht hb.2 hb.1
+    unfold fromToFixedTau
+    exact ⟨u, b, fun h => absurd h (by push Not; exact hb)⟩
+
 /-- the contract of `reb_rotation_init_to_new_axes` / `Rotation.to_new_axes`: a unit quaternion
     that takes the direction of `newz` to the z axis and the direction of the component of `newx`
     perpendicular to `newz` to the x axis ("this function will only take the component of newx
